@@ -15,6 +15,7 @@ import (
 
 	"verifharness/ev"
 	"verifharness/memhttp"
+	"verifharness/refwire"
 )
 
 // c03SourceThresholds — one input per shortcut visible in the code.
@@ -32,6 +33,7 @@ import (
 func c03SourceThresholds(t *testing.T, c *ev.Collector) {
 	ths := sourceThresholds("/repo", 64<<10, 64<<20)
 	c.Bound("source_thresholds", fmt.Sprint(ths))
+	c03StreamThresholds(t, c, ths)
 	const limit = 64
 	idx := 0
 	for _, th := range ths {
@@ -64,6 +66,47 @@ func c03SourceThresholds(t *testing.T, c *ev.Collector) {
 					}
 				})
 			}
+		}
+	}
+}
+
+// c03StreamThresholds: the same byte counts behind a message a gRPC client
+// refuses.  Response: a message within the limit, one above it, then one more
+// envelope occupying exactly T-1, T, T+1 bytes; the server's status and
+// metadata follow in the HTTP trailers, which net/http fills in when a body
+// read returns io.EOF.  Whether the client reports its own error or the
+// server's must not depend on how the end of the body is delivered.
+func c03StreamThresholds(t *testing.T, c *ev.Collector, ths []int) {
+	const limit = 4
+	head := append(refwire.Envelope(0, codecMarshal(false, &BV{Value: []byte{1, 2}})),
+		refwire.Envelope(0, codecMarshal(false, &BV{Value: []byte{1, 2, 3, 4, 5}}))...)
+	idx := 1000
+	for _, th := range ths {
+		for _, delta := range []int{-1, 0, 1} {
+			idx++
+			if !ev.Mine(idx) {
+				continue
+			}
+			n := th + delta
+			w := wireBody{Name: fmt.Sprintf("refused-then-%d%+d", th, delta), Proto: PGRPC, Kind: KServer, Status: 200,
+				Header:  http.Header{"Content-Type": {"application/grpc+proto"}},
+				Trailer: http.Header{"Grpc-Status": {"8"}, "Grpc-Message": {"try again later"}, "X-Trail": {"tv"}},
+				Body:    head}
+			Bubble(t, func() {
+				k0 := c03Case{Body: w, Limit: limit, SynthLen: n}
+				base := deliverLimited(k0.body(), memhttp.Script{Cut: -1, End: "eof"}, false, limit)
+				for _, stride := range []int{0, 65536, 1 << 20} {
+					for _, wl := range []bool{false, true} {
+						if stride == 0 && !wl {
+							continue
+						}
+						k := k0
+						k.Script = memhttp.Script{Stride: stride, Cut: -1, End: "eof", WithLast: wl}
+						c.Case(fmt.Sprintf("%s|limit%d|%d|%v", w.key(), limit, stride, wl), true)
+						c03Check(c, k, base)
+					}
+				}
+			})
 		}
 	}
 }
